@@ -24,7 +24,7 @@ def get_seams(env):
     return seams
 
 
-def run_scheduled(env, progs, schedule, open_clients, do_op, pid, max_steps=5000, warm=None, inspect=None):
+def run_scheduled(env, progs, schedule, open_clients, do_op, pid, max_steps=5000, warm=None, inspect=None, final_ops=()):
     """open_clients(path) -> (clients, closeables); client i runs progs[i] through do_op(client, op).
     Returns (calls, sched)."""
     seams = get_seams(env)
@@ -62,6 +62,13 @@ def run_scheduled(env, progs, schedule, open_clients, do_op, pid, max_steps=5000
         finally:
             seams.ctl = Controller()
             seams.clock.on_sleep = None
+        # read-back after every client has finished (sequential, by the coordinator): the final state must be explained too
+        for op in final_ops:
+            cid[0] += 1
+            call = Call(cid[0], -1, op, sched.tick())
+            call.result = do_op(clients[0], op)
+            call.res = sched.tick()
+            calls.append(call)
         if inspect is not None:
             inspect(path, clients)
         return calls, sched
